@@ -286,7 +286,10 @@ class Runner(object):
             elif kind == "pull":
                 sink_kind = op.get("dest", "bytesio")
                 if sink_kind == "bytesio":
-                    sink = io.BytesIO()
+                    pre = op.get("pre")     # (bytes already in the caller's BytesIO, its position): pull writes from that position on, IN PLACE
+                    sink = io.BytesIO(pre[0]) if pre else io.BytesIO()
+                    if pre:
+                        sink.seek(pre[1])
                     dest = sink
                 else:
                     dest = os.path.join(self.tmpdir(), "pulled_%d.bin" % id(op))
@@ -322,7 +325,17 @@ class Runner(object):
         if sink is None:
             sink_s = "N"
         elif sink_kind == "bytesio":
-            sink_s = hx(sink.getvalue())
+            pre = op.get("pre")
+            if pre:
+                # canonical form: the region written by this pull; anything else must be what the caller had there
+                val, k = sink.getvalue(), pre[1]
+                end = sink.tell() if not sink.closed else len(val)
+                if k <= end and val[:k] == bytes(pre[0])[:k] and val[end:] == bytes(pre[0])[end:]:
+                    sink_s = hx(val[k:end])
+                else:
+                    sink_s = "clobbered:" + hx(val)[:64]
+            else:
+                sink_s = hx(sink.getvalue())
         else:
             sink_s = "N"
             if os.path.exists(sink):
